@@ -151,6 +151,10 @@ def verify_contract(args):
             fail = {"obligation": ob.name, "kind": ob.kind, "solver": status, "info": ob.info, "line": ob.line,
                     "replayed": False, "inputs": None, "native_failed": None,
                     "was_discharged_in_lock": lock.get(ob.name) == "discharged"}
+            if ob.name.endswith(".post.type") and ob.name not in lock and lock and all(v == "discharged" for v in lock.values()):
+                # a type obligation exists only on a path that returns another type than the contract declares: the locked tree, all of
+                # whose obligations for this function were discharged, had no such path
+                fail["was_discharged_in_lock"] = True
             if status == "sat" and model is not None and (c.native or c.extract):
                 try:
                     argmap = {k: to_python(v, model) for k, v in ob.inputs.items() if k in c.args}
